@@ -122,7 +122,7 @@ c_disp = Component("exactly-once-dispatch", "random registrations (0-3 decorator
                    "on_<command> / on_empty_task / on_catch_all methods) followed by 1-25 tasks driven through the real _beacon_loop body "
                    "(get_task / time.sleep / send_callback stubbed): every task invokes exactly the handlers of its command once each, "
                    "the catch-all handlers only when there is none; get_handlers is stable under repetition and leaves task_map "
-                   "unchanged; 300 histories quick / 5000 thorough")
+                   "unchanged; 1000 histories quick / 5000 thorough")
 CMDS = [BeaconCommand.COMMAND_SLEEP, BeaconCommand.COMMAND_PWD, BeaconCommand.COMMAND_DIE, BeaconCommand.COMMAND_CD]
 
 
@@ -135,7 +135,7 @@ def mk_task(cmd):
 
 
 _real_sleep = client_mod.time.sleep
-for h in range(300 if TIER == "quick" else 5000):
+for h in range(1000 if TIER == "quick" else 5000):
     calls = []
     cl = dry(beacon_id=2 * h)
     cl.silent = True
